@@ -36,6 +36,11 @@ def prepare(ctx):
     global FILES
     FILES = str(ctx.scratch / "files")
     os.makedirs(FILES, exist_ok=True)
+    # private persistent file-hash store: the shared default (~/.cache/.../hashes) is scanned
+    # entry by entry at the end of every job
+    hashes = ctx.scratch / "hashes"
+    hashes.mkdir(exist_ok=True)
+    os.environ["PYDRA_HASH_CACHE"] = str(hashes)
     if not os.access(EXE, os.X_OK):
         os.chmod(EXE, 0o755)
     return FILES
@@ -64,17 +69,26 @@ CONSTANTS
 
 def generate(ctx, mode, nshards=1, **kw):
     """Run ShellArgv_Gen (possibly sharded over TLC processes); returns the printed cases."""
+    return generate_many(ctx, [(mode, nshards, kw)])
 
-    def one(sh):
-        cfg = gen_cfg(ctx, f"argv_{mode}_{kw.get('chars', False)}_{kw.get('maxl', 0)}_{sh}", mode,
-                      shard=sh, nshards=nshards, **kw)
+
+def generate_many(ctx, jobs, max_procs=8):
+    """jobs = [(mode, nshards, kwargs[, shards_to_run])]: all TLC processes run concurrently;
+    returns the cases (numbered in `k`) in job order."""
+    jobs = [tuple(j) + (None,) * (4 - len(j)) for j in jobs]   # optional 4th item: the shards to run
+    units = [(j, sh) for j, (_, n, _, only) in enumerate(jobs) for sh in (range(n) if only is None else only)]
+
+    def one(u):
+        j, sh = u
+        mode, n, kw, _ = jobs[j]
+        cfg = gen_cfg(ctx, f"argv_{j}_{mode}_{sh}", mode, shard=sh, nshards=n, **kw)
         return ctx.tlc("ShellArgv_Gen", cfg=cfg, workers=1, timeout=3000)
 
-    if nshards == 1:
-        rs = [one(0)]
+    if len(units) == 1:
+        rs = [one(units[0])]
     else:
-        with ThreadPoolExecutor(max_workers=min(nshards, 12)) as ex:
-            rs = list(ex.map(one, range(nshards)))
+        with ThreadPoolExecutor(max_workers=min(len(units), max_procs)) as ex:
+            rs = list(ex.map(one, units))
     cases = []
     for r in rs:
         cs = r.printed()
@@ -184,12 +198,22 @@ def make_value(f, v):
     return s
 
 
+_CLASSES = {}
+
+
 def materialise(case):
-    """-> (TaskClass, kwargs)"""
+    """-> (TaskClass, kwargs).  Task classes are memoised per definition (per process): the
+    class is built by the real shell.define either way, instances are never shared."""
     from pydra.compose import shell
 
-    inputs = {field_name(f): make_arg(f) for f in case["def"]}
-    T = shell.define(EXE, inputs=inputs)
+    key = json.dumps(case["def"], sort_keys=True)
+    T = _CLASSES.get(key)
+    if T is None:
+        inputs = {field_name(f): make_arg(f) for f in case["def"]}
+        T = shell.define(EXE, inputs=inputs)
+        if len(_CLASSES) > 4000:
+            _CLASSES.clear()
+        _CLASSES[key] = T
     kwargs = {}
     for f, v in zip(case["def"], case["vals"]):
         pv = make_value(f, v)
@@ -262,6 +286,25 @@ def observe_exec(case):
 
 def observe_noexec(case):
     return observe(case, execute=False)
+
+
+def observe_all(cases, exec_keys=(), procs=8):
+    """Observe every case ({k: observation}); those whose k is in exec_keys are also executed.
+    `_command_args`-level observations are cheap (~1.5 ms) and run in this process: on the
+    build machine a fork pool costs more than it saves for them.  Executions (one subprocess
+    each) go through core.pmap."""
+    exec_keys = set(exec_keys)
+    plain = [c for c in cases if c["k"] not in exec_keys]
+    execd = [c for c in cases if c["k"] in exec_keys]
+    obs = {}
+    if len(plain) > 20000:
+        obs.update(zip((c["k"] for c in plain), core.pmap(observe_noexec, plain, procs=4, chunksize=1000)))
+    else:
+        for c in plain:
+            obs[c["k"]] = observe(c)
+    if execd:
+        obs.update(zip((c["k"] for c in execd), core.pmap(observe_exec, execd, procs=procs, chunksize=4)))
+    return obs
 
 
 def project(obs):
@@ -453,17 +496,27 @@ def posix_validate(ctx, pairs, nshards=1):
     return res
 
 
+SH_SCRIPT = r"""for s do ( eval "printf '%s\\0' X $s" ) 2>/dev/null; printf '\001%d\001' $?; done"""
+
+
 def sh_split(strings, workdir):
     """What /bin/sh does with each source string used as the argument part of a command:
-    returns a list of (rc, [words]) ; one /bin/sh process per string (syntax errors abort)."""
+    returns a list of (rc, [words]).  One /bin/sh process per call; every string is parsed by
+    `eval` in a subshell of its own (a syntax error only ends that subshell)."""
     import subprocess
 
+    if not strings:
+        return []
+    args = [s.encode("utf-8", "surrogateescape") for s in strings]
+    p = subprocess.run([b"/bin/sh", b"-c", SH_SCRIPT.encode(), b"sh"] + args, cwd=workdir, capture_output=True,
+                       timeout=300, env={"PATH": "/nonexistent", "LC_ALL": "C"})
+    parts = p.stdout.split(b"\001")
+    if len(parts) != 2 * len(strings) + 1 or parts[-1] != b"":
+        raise core.MachineryError(f"/bin/sh cross-check: unparsable output ({len(parts)} parts for {len(strings)} strings)")
     res = []
-    for s in strings:
-        script = "printf '%s\\0' X " + s
-        p = subprocess.run(["/bin/sh", "-c", script], cwd=workdir, capture_output=True, timeout=20,
-                           env={"PATH": "/nonexistent", "LC_ALL": "C"})
-        parts = p.stdout.split(b"\0")
-        words = [w.decode("utf-8", "surrogateescape") for w in parts[:-1]][1:] if p.stdout else None
-        res.append((p.returncode, words))
+    for i in range(len(strings)):
+        blob, rc = parts[2 * i], int(parts[2 * i + 1])
+        ws = blob.split(b"\0")
+        words = [w.decode("utf-8", "surrogateescape") for w in ws[:-1]][1:] if blob else None
+        res.append((rc, words))
     return res
